@@ -79,7 +79,12 @@ func (vm *vm) run() error {
 		return vm.prog.constants[readUvarint()]
 	}
 
+	overflow := false
 	push := func(v value) {
+		if vm.tos == stackSize {
+			overflow = true
+			return
+		}
 		vm.stack[vm.tos] = v
 		vm.tos++
 		vm.stats.tosMax = max(vm.stats.tosMax, vm.tos)
@@ -249,6 +254,9 @@ func (vm *vm) run() error {
 				Name:   readConst().(string),
 				Fields: map[string]any{},
 			}
+			if vm.blockTos == blockStackSize {
+				return vm.runtimeError("blocks nested too deeply, limit is %d", blockStackSize)
+			}
 			vm.blockStack[vm.blockTos] = blk
 			vm.blockTos++
 			vm.stats.blockTosMax = max(vm.stats.blockTosMax, vm.blockTos)
@@ -351,6 +359,10 @@ func (vm *vm) run() error {
 
 		case opNOP:
 			// ( -- )
+		}
+
+		if overflow {
+			return vm.runtimeError("stack overflow, limit is %d values", stackSize)
 		}
 	}
 }
